@@ -71,8 +71,12 @@ type Scenario struct {
 	Shrink func(params any) []any
 	// Budget is the wall-clock budget per tier in seconds.
 	Budget func(tier string) time.Duration
-	// Known classifies a violation signature as a listed known finding.
-	Describe string
+	// BudgetIsVerdict: exhausting the step / emission / wall budget of a run (a livelock or an
+	// emission storm) is a violation of this property. For the other properties the budgets are
+	// resource guards only: such a run is abandoned without a verdict and counted
+	// (probe "run-abandoned-at-budget"); storms are the business of C02, C08, C13, C16, C17.
+	BudgetIsVerdict bool
+	Describe        string
 }
 
 var registry = map[string]*Scenario{}
